@@ -575,7 +575,7 @@ func constantStates(ra, rb *Rule, r *rand.Rand) []State {
 func init() {
 	register(&Check{
 		ID: "C07", Level: "exploration",
-		Rule: "base rule from the expression / assignment generators + one sibling obtained by ONE mutation of a catalogue (float constants differing at the 7th / 9th / 15th digit or last bit, sign, exponent, 1 vs 1.0, ints differing in one digit, strings differing in one character incl. quotes, brackets, commas and '->', crafted strings imitating snapshot syntax, operator swaps, negation toggles, operand order, selector constant / expression, argument order and count, method / function / member names, same member of another fact); every build order (AB, BA in one resource, two resources both ways); each rule alone vs together (the sibling removed from the instance) compared by canonical AST form of its entry and by FetchMatchingRules membership + execution result on 8 random fact states plus states at / between the two constants; non-trivial = distinct pairs whose alone-behaviours differ on the probed states (a merge would be observable)",
+		Rule: "base rule from the expression / assignment generators + one sibling obtained by ONE mutation of a catalogue (float constants differing at the 7th / 9th / 15th digit or last bit, sign, exponent, 1 vs 1.0, ints differing in one digit, strings differing in one character incl. quotes, brackets, commas and '->', crafted strings imitating snapshot syntax, operator swaps, negation toggles, operand order, selector constant / expression, argument order and count, method / function / member names, same member of another fact); every build order (AB, BA in one resource, two resources both ways); each rule alone vs together (the sibling removed from the instance) compared by canonical AST form of its entry and by FetchMatchingRules membership + execution result on 8 random fact states plus states at / between the two constants; non-trivial = distinct pairs whose alone-behaviours differ on the probed states (a merge would be observable); every tenth case is a crafted pair: strings imitating snapshot syntax, two members of one method result, long string constants (70-300 bytes) differing in one character",
 		Assume: []string{"self-differential: no reference semantics involved", "canonical printer (canon_kb.go) is injective on the exported AST fields"},
 		Cases:  tierN(1500, 50000),
 		Run:    runC07Case,
